@@ -106,7 +106,7 @@ def run(v) -> None:
     rng = random.Random(seed())
     quick = v.tier == "quick"
     v.rule = "folds distinct by (geometry, data, api, gulp); non-trivial = multi-block gulp or DM != 0 or acceleration != 0"
-    v.assumptions += ["period/tsamp = pn/pd with pn*kd odd: the exact phase is never on a bin boundary (distance >= 1/(2*pn*kd))",
+    v.assumptions += ["period/tsamp = pn/pd with pn*kd odd: the exact phase is never on a bin boundary (distance >= 1/(2*pn*kd)) - except four geometries with period/tsamp = 2*nbins, nbins a power of two, where every other sample is exactly on an edge and the arithmetic is exact",
                       "tsamp = 0.5 s (exact in float32); acceleration 2c*kappa with kappa*tsamp = kn/kd",
                       "whole-file folds; delays as reported by the library; N/nints and C/nbands exact or coprime (no float ties)"]
     v.add_tlc(tlc.must_pass(tlc.run("MC_Fold", "MC_Fold.cfg", workers=12, timeout=3000), "MC_Fold"), "MC_Fold")
@@ -128,6 +128,11 @@ def run(v) -> None:
                       "kn": kn, "kd": kd, "dm": rng.choice([0.0, 0.02, 0.05, 0.1]),      # delays up to ~20 samples at 5..8 MHz, tsamp 0.5 s
                       "gulps": [N + 5, rng.choice([7, 13, 33]), rng.choice([1, 2, 3, 50])],
                       "pulse": rng.randrange(0, pn) if (pd == 1 and kn == 0 and rng.random() < 0.5) else None})
+    # samples whose phase falls EXACTLY on a bin edge (period/tsamp = 2*nbins, nbins a power of two: the arithmetic is exact in
+    # floating point too): the documented int(phase + 0.5) puts them in the upper bin
+    for (N, C, nbins, nints, nbands) in [(64, 2, 2, 1, 1), (96, 1, 4, 2, 1), (80, 4, 4, 1, 2), (120, 2, 2, 3, 1)]:
+        geoms.append({"N": N, "C": C, "nbins": nbins, "nints": nints, "nbands": nbands, "pn": 2 * nbins, "pd": 1, "kn": 0, "kd": 1, "dm": 0.0,
+                      "gulps": [N + 5, 13, 50], "pulse": None})
     specs = [{"id": i, "seed": seed() * 29 + i, "geoms": geoms[i::14]} for i in range(14)]
     evs = [e for r in pool.pmap(job, specs, workers=14) for e in r]
     traces = [{"hdr": {}, "ev": evs[i:i + 8]} for i in range(0, len(evs), 8)]
